@@ -65,7 +65,7 @@ LifeViolations(L, k, c) == {g \in LifeGuards : ~LifeGuard(g, L, k, c)}
 \* that was never dialled or is already dropped, a second return
 Recordable(L, k, c) ==
   CASE k \in {"d", "s"} -> c = Len(L.conns) + 1 /\ L.call = "sending"
-    [] k = "n" -> L.call = "sending"
+    [] k = "n" -> c = Len(L.conns) + 1 /\ L.call = "sending"
     [] k \in {"w", "t", "r", "x"} -> IsConn(L, c) /\ L.conns[c].open
     [] k \in {"ok", "err"} -> L.call = "sending"
     [] k = "end" -> L.call \in {"ok", "err"}
@@ -74,6 +74,7 @@ Recordable(L, k, c) ==
 \* ---- effect of a token
 Apply(L, k, c) ==
   CASE k = "d" -> [L EXCEPT !.conns = Append(@, Conn0)]
+    [] k = "n" -> [L EXCEPT !.conns = Append(@, [Conn0 EXCEPT !.open = FALSE])]      \* a dial that failed: numbered, never open
     [] k = "s" -> [L EXCEPT !.conns = Append(@, [Conn0 EXCEPT !.duplex = TRUE])]
     [] k = "t" -> [L EXCEPT !.conns[c].wrote = TRUE, !.conns[c].duplex = TRUE]
     [] k = "w" -> [L EXCEPT !.conns[c].wrote = TRUE]
